@@ -11,6 +11,7 @@ import (
 	"verif/harness/dates"
 	"verif/harness/document"
 	"verif/harness/matching"
+	"verif/harness/mergedocs"
 	"verif/harness/nodeheap"
 	"verif/harness/similarity"
 	"verif/harness/warnings"
@@ -35,6 +36,8 @@ func main() {
 		err = document.Main(os.Args[2:])
 	case "matching":
 		err = matching.Main(os.Args[2:])
+	case "mergedocs":
+		err = mergedocs.Main(os.Args[2:])
 	case "nodeheap":
 		err = nodeheap.Main(os.Args[2:])
 	case "similarity":
